@@ -18,6 +18,9 @@ type Store struct {
 	// requests for nodes the schema does not define here, ...).
 	Problems []string
 	byMeta   map[meta.Definition]*SNode
+	// Eager makes the store hand out a node for every non-presence container, also one that holds nothing yet (the way
+	// a Go struct with value-typed container fields does); the container joins the data with the first thing written into it.
+	Eager bool
 	// write log (captures only): names written per node, in order; creations per parent
 	logWrites bool
 	writeLog  map[*DNode][]string
@@ -68,6 +71,23 @@ func (st *Store) Browser() *node.Browser { return node.NewBrowser(st.S.Mod, st.N
 type refNode struct {
 	st *Store
 	d  *DNode
+	// a node handed out for a container that is not in the data (yet)
+	ghostOf   *refNode
+	ghostName string
+}
+
+// materialize links a node handed out for an absent container into the data (on its first write).
+func (n *refNode) materialize() {
+	if n.ghostOf == nil {
+		return
+	}
+	n.ghostOf.materialize()
+	if n.ghostOf.d.Kids[n.ghostName] == nil {
+		n.ghostOf.d.Kids[n.ghostName] = n.d
+	} else {
+		n.d = n.ghostOf.d.Kids[n.ghostName]
+	}
+	n.ghostOf = nil
 }
 
 func (n *refNode) schemaChild(m meta.Definition) *SNode {
@@ -106,6 +126,9 @@ func (n *refNode) Child(r node.ChildRequest) (node.Node, error) {
 		}
 		return nil, nil
 	}
+	if r.New {
+		n.materialize()
+	}
 	if sn.Kind == List {
 		if r.New {
 			if n.d.Lists[name] == nil {
@@ -127,6 +150,9 @@ func (n *refNode) Child(r node.ChildRequest) (node.Node, error) {
 	}
 	k := n.d.Kids[name]
 	if k == nil {
+		if n.st.Eager && !sn.Presence {
+			return &refNode{st: n.st, d: NewDNode(sn), ghostOf: n, ghostName: name}, nil
+		}
 		return nil, nil
 	}
 	return &refNode{st: n.st, d: k}, nil
@@ -149,6 +175,7 @@ func (n *refNode) Field(r node.FieldRequest, hnd *node.ValueHandle) error {
 			delete(n.d.Leaves, sn.Name)
 			return nil
 		}
+		n.materialize()
 		lv, bad := FromVal(sn.Type, sn.Kind == LeafList, hnd.Val)
 		if bad != "" {
 			n.st.problem("write %s: %s", sn.Name, bad)
